@@ -530,5 +530,970 @@ theorem pre_spec (d : Doc) (p : Pre) (hd : DocA d) (h : pre exactOps d = .ok p) 
   push_cast
   ring
 
+/-! ## the tax summary under the precise rule, prices not including tax -/
+
+theorem list_sum_diff_le' {α : Type} (xs : List α) (f g B : α → ℚ)
+    (h : ∀ x ∈ xs, |f x - g x| ≤ B x) : |(xs.map f).sum - (xs.map g).sum| ≤ (xs.map B).sum := by
+  induction xs with
+  | nil => simp
+  | cons x xs ih =>
+    have h1 := h x (by simp)
+    have h2 := ih (fun y hy => h y (by simp [hy]))
+    simp only [List.map_cons, List.sum_cons]
+    have : f x + (xs.map f).sum - (g x + (xs.map g).sum) = (f x - g x) + ((xs.map f).sum - (xs.map g).sum) := by ring
+    rw [this]
+    refine le_trans (abs_add_le _ _) ?_
+    linarith
+
+theorem sum_map_mul_const {α : Type} (xs : List α) (f : α → ℕ) (h : ℚ) :
+    (xs.map (fun x => ((f x : ℕ) : ℚ) * h)).sum = (((xs.map f).sum : ℕ) : ℚ) * h := by
+  induction xs with
+  | nil => simp
+  | cons x xs ih => simp only [List.map_cons, List.sum_cons, ih]; push_cast; ring
+
+theorem amtEq_toRat (a b : Amount) (h : amtEq a b = true) : a.toRat = b.toRat := by
+  unfold amtEq at h
+  simp only at h
+  generalize he : (if b.exp > a.exp then b.exp else a.exp) = e at h
+  have hv : (up a e).value = (up b e).value := by simpa using h
+  have hx : (up a e).exp = (up b e).exp := by
+    rw [up_exp, up_exp]; split at he <;> omega
+  rw [← up_toRat a e, ← up_toRat b e]
+  unfold Amount.toRat
+  rw [hv, hx]
+
+theorem rtMatches_percent (rt : RateTotal) (cb : Combo) (h : rtMatches rt cb = true) :
+    (rt.percent = none ∧ cb.percent = none) ∨
+    ∃ p q, rt.percent = some p ∧ cb.percent = some q ∧ p.amount.toRat = q.amount.toRat := by
+  unfold rtMatches at h
+  split at h
+  · simp at h
+  · split at h
+    · simp at h
+    · cases hp : rt.percent with
+      | none =>
+        cases hq : cb.percent with
+        | none => exact Or.inl ⟨rfl, rfl⟩
+        | some q => simp [hp, hq] at h
+      | some p =>
+        cases hq : cb.percent with
+        | none => simp [hp, hq] at h
+        | some q =>
+          simp only [hp, hq, Bool.and_eq_true] at h
+          exact Or.inr ⟨p, q, rfl, rfl, amtEq_toRat _ _ h.2⟩
+
+/-- a tax combo of the covered class: not retained, no surcharge, exempt or a percentage of at
+most 100 % in magnitude -/
+def ComboOk (cb : Combo) : Prop :=
+  cb.retained = false ∧ cb.surcharge = none ∧ ∀ p, cb.percent = some p → |p.amount.toRat| ≤ 1
+
+def comboQ (t : ℚ) (cb : Combo) : ℚ :=
+  match cb.percent with
+  | some p => t * p.amount.toRat
+  | none => 0
+
+/-- the exact tax of a row with total `t` (prices not including tax), as `Spec.C01.exactQ` has it -/
+def rowQ (t : ℚ) (taxes : List Combo) : ℚ := (Spec.C01.rowTaxQ none t taxes).1
+
+theorem rowQ_eq (t : ℚ) (taxes : List Combo) (h : ∀ cb ∈ taxes, ComboOk cb) :
+    rowQ t taxes = (taxes.map (comboQ t)).sum := by
+  unfold rowQ Spec.C01.rowTaxQ
+  simp only
+  congr 1
+  apply List.map_congr_left
+  intro cb hcb
+  obtain ⟨hr, hs, _⟩ := h cb hcb
+  unfold comboQ
+  cases hp : cb.percent with
+  | none => rfl
+  | some p => simp [hr, hs, Spec.C01.pq]
+
+theorem comboQ_diff (T t : ℚ) (cb : Combo) (h : ComboOk cb) : |comboQ T cb - comboQ t cb| ≤ |T - t| := by
+  unfold comboQ
+  cases hp : cb.percent with
+  | none => simp
+  | some p =>
+    simp only
+    have hle := h.2.2 p hp
+    have e : T * p.amount.toRat - t * p.amount.toRat = (T - t) * p.amount.toRat := by ring
+    rw [e, abs_mul]
+    calc |T - t| * |p.amount.toRat| ≤ |T - t| * 1 := mul_le_mul_of_nonneg_left hle (abs_nonneg _)
+      _ = |T - t| := mul_one _
+
+theorem rowQ_diff (T t : ℚ) (taxes : List Combo) (h : ∀ cb ∈ taxes, ComboOk cb) :
+    |rowQ T taxes - rowQ t taxes| ≤ (taxes.length : ℚ) * |T - t| := by
+  rw [rowQ_eq T taxes h, rowQ_eq t taxes h]
+  exact list_sum_diff_le taxes (comboQ T) (comboQ t) _ (fun cb hcb => comboQ_diff T t cb (h cb hcb))
+
+def rateQ (rt : RateTotal) : ℚ :=
+  match rt.percent with
+  | some p => rt.base.toRat * p.amount.toRat
+  | none => 0
+
+def ratesQ (rts : List RateTotal) : ℚ := (rts.map rateQ).sum
+def catsQ (cats : List CatTotal) : ℚ := (cats.map (fun ct => ratesQ ct.rates)).sum
+
+/-- every group has no surcharge and a base between the working precision and `E` -/
+def RatesInv (c E : ℕ) (rts : List RateTotal) : Prop :=
+  ∀ rt ∈ rts, rt.surcharge = none ∧ c + 2 ≤ rt.base.exp ∧ rt.base.exp ≤ E
+
+theorem base_step_precise (base t : Amount) :
+    (add exactOps (mrp .precise base t) t).toRat = base.toRat + t.toRat ∧
+    (add exactOps (mrp .precise base t) t).exp = max base.exp t.exp := by
+  refine ⟨?_, step_exp_precise .precise (by decide) base t⟩
+  have := (base_step .precise 0 base t (fun h => by cases h)).1
+  simpa [contrib] using this
+
+theorem addToRates_w (c E : ℕ) (cb : Combo) (t : Amount) (rts : List RateTotal)
+    (hcb : cb.surcharge = none) (ht1 : c + 2 ≤ t.exp) (ht2 : t.exp ≤ E) (hinv : RatesInv c E rts) :
+    ratesQ (addToRates exactOps .precise c cb t rts) = ratesQ rts + comboQ t.toRat cb ∧
+    RatesInv c E (addToRates exactOps .precise c cb t rts) := by
+  induction rts with
+  | nil =>
+    obtain ⟨b1, b2⟩ := base_step_precise ⟨0, c⟩ t
+    simp only [addToRates, newRate, ratesQ, List.map_cons, List.map_nil, List.sum_cons, List.sum_nil]
+    refine ⟨?_, ?_⟩
+    · simp only [rateQ, comboQ, b1]
+      cases cb.percent <;> simp [Amount.toRat]
+    · intro rt hrt
+      simp only [List.mem_singleton] at hrt
+      subst hrt
+      simp only [hcb, Option.map_none, b2, true_and]
+      omega
+  | cons rt rts ih =>
+    have hinv' : RatesInv c E rts := fun x hx => hinv x (by simp [hx])
+    obtain ⟨hs, he1, he2⟩ := hinv rt (by simp)
+    simp only [addToRates]
+    split
+    · rename_i hm
+      obtain ⟨b1, b2⟩ := base_step_precise rt.base t
+      refine ⟨?_, ?_⟩
+      · simp only [ratesQ, List.map_cons, List.sum_cons]
+        have : rateQ { rt with base := add exactOps (mrp .precise rt.base t) t } = rateQ rt + comboQ t.toRat cb := by
+          rcases rtMatches_percent rt cb hm with ⟨h1, h2⟩ | ⟨p, q, h1, h2, h3⟩
+          · simp [rateQ, comboQ, h1, h2]
+          · simp only [rateQ, comboQ, h1, h2, b1, h3]; ring
+        rw [this]; ring
+      · intro x hx
+        simp only [List.mem_cons] at hx
+        rcases hx with rfl | hx
+        · simp only [hs, b2, true_and]; omega
+        · exact hinv' x hx
+    · obtain ⟨i1, i2⟩ := ih hinv'
+      refine ⟨?_, ?_⟩
+      · simp only [ratesQ, List.map_cons, List.sum_cons] at i1 ⊢
+        rw [i1]; ring
+      · intro x hx
+        simp only [List.mem_cons] at hx
+        rcases hx with rfl | hx
+        · exact hinv x (by simp)
+        · exact i2 x hx
+
+def CatsInv (c E : ℕ) (cats : List CatTotal) : Prop :=
+  ∀ ct ∈ cats, ct.retained = false ∧ RatesInv c E ct.rates
+
+theorem addToCats_w (c E : ℕ) (cb : Combo) (t : Amount) (cats : List CatTotal)
+    (hcb : ComboOk cb) (ht1 : c + 2 ≤ t.exp) (ht2 : t.exp ≤ E) (hinv : CatsInv c E cats) :
+    catsQ (addToCats exactOps .precise c cb t cats) = catsQ cats + comboQ t.toRat cb ∧
+    CatsInv c E (addToCats exactOps .precise c cb t cats) := by
+  induction cats with
+  | nil =>
+    obtain ⟨h1, h2⟩ := addToRates_w c E cb t [] hcb.2.1 ht1 ht2 (fun _ h => by simp at h)
+    simp only [addToCats, catsQ, List.map_cons, List.map_nil, List.sum_cons, List.sum_nil]
+    refine ⟨?_, ?_⟩
+    · rw [h1]; simp [ratesQ]
+    · intro ct hct
+      simp only [List.mem_singleton] at hct
+      subst hct
+      exact ⟨hcb.1, h2⟩
+  | cons ct cts ih =>
+    have hinv' : CatsInv c E cts := fun x hx => hinv x (by simp [hx])
+    simp only [addToCats]
+    split
+    · obtain ⟨h1, h2⟩ := addToRates_w c E cb t ct.rates hcb.2.1 ht1 ht2 (hinv ct (by simp)).2
+      refine ⟨?_, ?_⟩
+      · simp only [catsQ, List.map_cons, List.sum_cons, h1]; ring
+      · intro x hx
+        simp only [List.mem_cons] at hx
+        rcases hx with rfl | hx
+        · exact ⟨(hinv ct (by simp)).1, h2⟩
+        · exact hinv' x hx
+    · obtain ⟨i1, i2⟩ := ih hinv'
+      refine ⟨?_, ?_⟩
+      · simp only [catsQ, List.map_cons, List.sum_cons] at i1 ⊢
+        rw [i1]; ring
+      · intro x hx
+        simp only [List.mem_cons] at hx
+        rcases hx with rfl | hx
+        · exact hinv x (by simp)
+        · exact i2 x hx
+
+theorem foldCombos_w (c E : ℕ) (t : Amount) (cbs : List Combo) (cats : List CatTotal)
+    (hcb : ∀ cb ∈ cbs, ComboOk cb) (ht1 : c + 2 ≤ t.exp) (ht2 : t.exp ≤ E) (hinv : CatsInv c E cats) :
+    catsQ (cbs.foldl (fun cats cb => addToCats exactOps .precise c cb t cats) cats) =
+      catsQ cats + (cbs.map (comboQ t.toRat)).sum ∧
+    CatsInv c E (cbs.foldl (fun cats cb => addToCats exactOps .precise c cb t cats) cats) := by
+  induction cbs generalizing cats with
+  | nil => simp [hinv]
+  | cons cb cbs ih =>
+    obtain ⟨h1, h2⟩ := addToCats_w c E cb t cats (hcb cb (by simp)) ht1 ht2 hinv
+    obtain ⟨i1, i2⟩ := ih (addToCats exactOps .precise c cb t cats) (fun x hx => hcb x (by simp [hx])) h2
+    refine ⟨?_, i2⟩
+    rw [List.foldl_cons, i1, h1]
+    simp only [List.map_cons, List.sum_cons]
+    ring
+
+/-- a row of the covered class: combos of the class, total between the working precision and `E` -/
+def RowOk (c E : ℕ) (rw : Row) : Prop :=
+  (∀ cb ∈ rw.taxes, ComboOk cb) ∧ c + 2 ≤ rw.total.exp ∧ rw.total.exp ≤ E
+
+theorem baseRateTotals_w (c E : ℕ) (rows : List Row) (cats : List CatTotal)
+    (hrows : ∀ rw ∈ rows, RowOk c E rw) (hinv : CatsInv c E cats) :
+    catsQ (rows.foldl (fun cats rw => rw.taxes.foldl (fun cats cb => addToCats exactOps .precise c cb rw.total cats) cats) cats) =
+      catsQ cats + (rows.map (fun rw => rowQ rw.total.toRat rw.taxes)).sum ∧
+    CatsInv c E (rows.foldl (fun cats rw => rw.taxes.foldl (fun cats cb => addToCats exactOps .precise c cb rw.total cats) cats) cats) := by
+  induction rows generalizing cats with
+  | nil => simp [hinv]
+  | cons rw rows ih =>
+    obtain ⟨hc, h1, h2⟩ := hrows rw (by simp)
+    obtain ⟨f1, f2⟩ := foldCombos_w c E rw.total rw.taxes cats hc h1 h2 hinv
+    obtain ⟨i1, i2⟩ := ih _ (fun x hx => hrows x (by simp [hx])) f2
+    refine ⟨?_, i2⟩
+    rw [List.foldl_cons, i1, f1]
+    simp only [List.map_cons, List.sum_cons]
+    rw [rowQ_eq _ _ hc]
+    ring
+
+/-! ### amounts of the groups, categories and the tax sum -/
+
+theorem rateAmounts_percent (rt : RateTotal) (c : ℕ) : (rateAmounts exactOps rt c).percent = rt.percent := by
+  unfold rateAmounts; split <;> simp_all
+
+theorem rateAmounts_surcharge_none (rt : RateTotal) (c : ℕ) (h : rt.surcharge = none) :
+    (rateAmounts exactOps rt c).surcharge = none := by
+  unfold rateAmounts; split <;> simp [h]
+
+theorem rateAmounts_err (rt : RateTotal) (c E : ℕ) (h1 : c + 2 ≤ rt.base.exp) (h2 : rt.base.exp ≤ E) (hc : c ≤ E) :
+    (rateAmounts exactOps rt c).amount.exp ≤ E ∧
+    |taxedAmount .precise c (rateAmounts exactOps rt c) - rateQ rt| ≤ halfUlp (c + 2) := by
+  unfold taxedAmount rateQ
+  rw [rateAmounts_percent]
+  cases hp : rt.percent with
+  | none =>
+    refine ⟨?_, by simp [halfUlp_nonneg]⟩
+    simp [rateAmounts, hp, hc]
+  | some p =>
+    have hv : (rateAmounts exactOps rt c).amount = rt.base.mulX p.amount := by
+      simp [rateAmounts, hp, pctOf]
+    simp only [contrib, hv, mulX_exp]
+    exact ⟨h2, le_trans (mulX_err rt.base p.amount) (halfUlp_mono _ _ h1)⟩
+
+theorem surchargeFold_none (r : Rule) (c : ℕ) (rates : List RateTotal) (h : ∀ rt ∈ rates, rt.surcharge = none) :
+    rates.foldl (fun (s : Option Amount) rt =>
+      match rt.percent, rt.surcharge with
+      | some _, some (_, sa) =>
+        let x := s.getD ⟨0, c⟩
+        some (add exactOps (mrp r x sa) sa)
+      | _, _ => s) none = none := by
+  induction rates with
+  | nil => rfl
+  | cons rt rates ih =>
+    rw [List.foldl_cons]
+    have hs := h rt (by simp)
+    have : (match rt.percent, rt.surcharge with
+      | some _, some (_, sa) =>
+        let x := (none : Option Amount).getD ⟨0, c⟩
+        some (add exactOps (mrp r x sa) sa)
+      | _, _ => (none : Option Amount)) = none := by
+      rw [hs]; cases rt.percent <;> rfl
+    rw [this]
+    exact ih (fun x hx => h x (by simp [hx]))
+
+theorem amountFold_exp_le (E : ℕ) (rates : List RateTotal) (z : Amount) (hz : z.exp ≤ E)
+    (h : ∀ rt ∈ rates, rt.amount.exp ≤ E) :
+    (rates.foldl (fun a rt =>
+        match rt.percent with
+        | none => a
+        | some _ => add exactOps (mrp .precise a rt.amount) rt.amount) z).exp ≤ E := by
+  induction rates generalizing z with
+  | nil => simpa
+  | cons rt rates ih =>
+    rw [List.foldl_cons]
+    apply ih _ _ (fun x hx => h x (by simp [hx]))
+    cases rt.percent with
+    | none => exact hz
+    | some p =>
+      simp only
+      rw [step_exp_precise .precise (by decide)]
+      have := h rt (by simp)
+      omega
+
+/-- one category: no surcharge, not retained, amount not finer than `E`, within one half-unit per
+group of Σ base × percentage -/
+theorem catAmounts_w (c E : ℕ) (ct : CatTotal) (hr : ct.retained = false) (hinv : RatesInv c E ct.rates) (hc : c ≤ E) :
+    (catAmounts exactOps .precise c ct).retained = false ∧
+    (catAmounts exactOps .precise c ct).surcharge = none ∧
+    (catAmounts exactOps .precise c ct).amount.exp ≤ E ∧
+    (catAmounts exactOps .precise c ct).rates.length = ct.rates.length ∧
+    |(catAmounts exactOps .precise c ct).amount.toRat - ratesQ ct.rates| ≤ (ct.rates.length : ℚ) * halfUlp (c + 2) := by
+  refine ⟨hr, ?_, ?_, ?_, ?_⟩
+  · simp only [catAmounts]
+    apply surchargeFold_none
+    intro rt hrt
+    simp only [List.mem_map] at hrt
+    obtain ⟨x, hx, rfl⟩ := hrt
+    exact rateAmounts_surcharge_none x c (hinv x hx).1
+  · simp only [catAmounts]
+    apply amountFold_exp_le E _ _ hc
+    intro rt hrt
+    simp only [List.mem_map] at hrt
+    obtain ⟨x, hx, rfl⟩ := hrt
+    exact (rateAmounts_err x c E (hinv x hx).2.1 (hinv x hx).2.2 hc).1
+  · simp [catAmounts]
+  · rw [catAmounts_amount]
+    have hrates : (catAmounts exactOps .precise c ct).rates = ct.rates.map (rateAmounts exactOps · c) := rfl
+    rw [hrates, List.map_map]
+    unfold ratesQ
+    exact list_sum_diff_le ct.rates _ rateQ _
+      (fun x hx => (rateAmounts_err x c E (hinv x hx).2.1 (hinv x hx).2.2 hc).2)
+
+theorem finalSum_exp_le (c E : ℕ) (cats : List CatTotal) (hc : c ≤ E)
+    (h : ∀ ct ∈ cats, ct.surcharge = none ∧ ct.amount.exp ≤ E) :
+    (finalSum exactOps .precise c cats).exp ≤ E := by
+  unfold finalSum
+  have key : ∀ (cats : List CatTotal) (z : Amount), z.exp ≤ E →
+      (∀ ct ∈ cats, ct.surcharge = none ∧ ct.amount.exp ≤ E) →
+      (cats.foldl (fun s ct =>
+        let s1 := mrp .precise s ct.amount
+        if ct.retained then
+          let s2 := sub exactOps s1 ct.amount
+          match ct.surcharge with | some x => sub exactOps s2 x | none => s2
+        else
+          let s2 := add exactOps s1 ct.amount
+          match ct.surcharge with | some x => add exactOps s2 x | none => s2) z).exp ≤ E := by
+    intro cats
+    induction cats with
+    | nil => intro z hz _; simpa
+    | cons ct cts ih =>
+      intro z hz h
+      rw [List.foldl_cons]
+      apply ih _ _ (fun x hx => h x (by simp [hx]))
+      obtain ⟨hs, he⟩ := h ct (by simp)
+      simp only [hs, mrp]
+      split <;> simp only [sub_exp, add_exp, up_exp] <;> omega
+  exact key cats ⟨0, c⟩ hc h
+
+/-- number of rate groups of a tax summary -/
+def groupsOf (cats : List CatTotal) : ℕ := (cats.map (·.rates.length)).sum
+
+theorem cats_w (c E : ℕ) (cats : List CatTotal) (hinv : CatsInv c E cats) (hc : c ≤ E) :
+    (finalSum exactOps .precise c (cats.map (catAmounts exactOps .precise c))).exp ≤ E ∧
+    groupsOf (cats.map (catAmounts exactOps .precise c)) = groupsOf cats ∧
+    |(finalSum exactOps .precise c (cats.map (catAmounts exactOps .precise c))).toRat - catsQ cats| ≤
+      (groupsOf cats : ℚ) * halfUlp (c + 2) := by
+  have hall : ∀ ct ∈ cats.map (catAmounts exactOps .precise c), ct.surcharge = none ∧ ct.amount.exp ≤ E := by
+    intro ct hct
+    simp only [List.mem_map] at hct
+    obtain ⟨x, hx, rfl⟩ := hct
+    obtain ⟨_, h2, h3, _, _⟩ := catAmounts_w c E x (hinv x hx).1 (hinv x hx).2 hc
+    exact ⟨h2, h3⟩
+  refine ⟨finalSum_exp_le c E _ hc hall, ?_, ?_⟩
+  · unfold groupsOf
+    rw [List.map_map]
+    congr 1
+    apply List.map_congr_left
+    intro x hx
+    exact (catAmounts_w c E x (hinv x hx).1 (hinv x hx).2 hc).2.2.2.1
+  · rw [finalSum_toRat .precise (by decide) c _ (fun ct hct s hs => by rw [(hall ct hct).1] at hs; cases hs)]
+    rw [List.map_map]
+    unfold catsQ groupsOf
+    have hB : ∀ x ∈ cats, |(catSignedQ ∘ catAmounts exactOps .precise c) x - ratesQ x.rates| ≤
+        ((x.rates.length : ℕ) : ℚ) * halfUlp (c + 2) := by
+      intro x hx
+      obtain ⟨h1, h2, _, _, h5⟩ := catAmounts_w c E x (hinv x hx).1 (hinv x hx).2 hc
+      have : catSignedQ (catAmounts exactOps .precise c x) = (catAmounts exactOps .precise c x).amount.toRat := by
+        unfold catSignedQ
+        simp [h1, h2]
+      simp only [Function.comp]
+      rw [this]
+      exact h5
+    have := list_sum_diff_le' cats _ (fun x => ratesQ x.rates) (fun x => ((x.rates.length : ℕ) : ℚ) * halfUlp (c + 2)) hB
+    exact le_trans this (le_of_eq (sum_map_mul_const cats (·.rates.length) _))
+
+/-! ### `taxTotal` as a whole -/
+
+theorem prepareRow_id (c E : ℕ) (rw : Row) (h : RowOk c E rw) : prepareRow c rw = rw := by
+  unfold prepareRow
+  split
+  · rfl
+  · rw [up_self _ _ (by simp only [Calc.E]; exact h.2.1)]
+
+theorem rescaleX_zero (a : Amount) (c : ℕ) (h : a.value = 0) : (a.rescaleX c).toRat = 0 := by
+  have ha : a.toRat = 0 := by unfold Amount.toRat; rw [h]; simp
+  have hv := rescaleX_value a c
+  rw [ha] at hv
+  have : roundTo c 0 = 0 := by
+    unfold roundTo
+    have := roundHalfAway_int 0
+    simpa using this
+  unfold Amount.toRat
+  rw [hv, this]; simp
+
+theorem precise_roundTax (c : ℕ) (cats : List CatTotal) (fs : Amount) :
+    (roundTax exactOps c cats fs).precise.toRat = fs.toRat ∧
+    (roundTax exactOps c cats fs).precise.exp ≤ max fs.exp c ∧
+    groupsOf (roundTax exactOps c cats fs).cats = groupsOf cats := by
+  refine ⟨?_, ?_, ?_⟩
+  · unfold TaxTotal.precise roundTax
+    simp only
+    split
+    · rfl
+    · rename_i h
+      have hz : fs.value = 0 := by simpa using h
+      rw [exact_rescale, rescaleX_zero fs c hz]
+      unfold Amount.toRat; rw [hz]; simp
+  · unfold TaxTotal.precise roundTax
+    simp only
+    split
+    · omega
+    · rw [exact_rescale, rescaleX_exp]; omega
+  · unfold groupsOf roundTax
+    simp [List.map_map, Function.comp_def]
+
+/-- **the working tax** (precise rule, prices not including tax, rows of the class): not finer
+than `E`, and within one half-unit per rate group of Σ rows' exact tax on the *working* row totals -/
+theorem taxTotal_w (c E : ℕ) (rows : List Row) (tx : TaxTotal) (hrows : ∀ rw ∈ rows, RowOk c E rw) (hc : c ≤ E)
+    (h : taxTotal exactOps .precise c none rows = .ok tx) :
+    tx.precise.exp ≤ E ∧
+    |tx.precise.toRat - (rows.map (fun rw => rowQ rw.total.toRat rw.taxes)).sum| ≤
+      (groupsOf tx.cats : ℚ) * halfUlp (c + 2) := by
+  unfold taxTotal at h
+  simp only at h
+  injection h with h
+  have hmap : rows.map (prepareRow c) = rows := by
+    conv_rhs => rw [← List.map_id rows]
+    exact List.map_congr_left (fun rw hrw => prepareRow_id c E rw (hrows rw hrw))
+  rw [hmap] at h
+  obtain ⟨b1, b2⟩ := baseRateTotals_w c E rows [] hrows (fun _ hx => by simp at hx)
+  have hb : baseRateTotals exactOps .precise c rows =
+      rows.foldl (fun cats rw => rw.taxes.foldl (fun cats cb => addToCats exactOps .precise c cb rw.total cats) cats) [] := rfl
+  rw [← hb] at b1 b2
+  obtain ⟨c1, c2, c3⟩ := cats_w c E _ b2 hc
+  obtain ⟨p1, p2, p3⟩ := precise_roundTax c ((baseRateTotals exactOps .precise c rows).map (catAmounts exactOps .precise c))
+    (finalSum exactOps .precise c ((baseRateTotals exactOps .precise c rows).map (catAmounts exactOps .precise c)))
+  rw [h] at p1 p2 p3
+  refine ⟨by omega, ?_⟩
+  rw [p1, p3, c2]
+  rw [b1] at c3
+  simpa [catsQ] using c3
+
+/-! ### the tax of a document of the class -/
+
+theorem neg_toRat (a : Amount) : (neg a).toRat = -a.toRat := by
+  unfold neg Amount.toRat
+  push_cast
+  ring
+
+theorem docAdj_taxes (r : Rule) (c : ℕ) (sum : Amount) (x : DocAdj) :
+    (docAdj exactOps r c sum x).taxes = x.taxes := by
+  unfold docAdj
+  simp only
+  split
+  · split
+    · rfl
+    · split <;> rfl
+  · rfl
+
+/-- step 2's document class: `DocA`, prices not including tax, every tax combo (on lines and on
+document discounts / charges) ordinary: not retained, no surcharge, exempt or a percentage ≤ 100 % -/
+structure DocT (d : Doc) : Prop where
+  base : DocA d
+  inc : d.includes = none
+  lineTaxes : ∀ l ∈ d.lines, ∀ cb ∈ l.taxes, ComboOk cb
+  discTaxes : ∀ x ∈ d.discounts, ∀ cb ∈ x.taxes, ComboOk cb
+  chTaxes : ∀ x ∈ d.charges, ∀ cb ∈ x.taxes, ComboOk cb
+
+/-- error carried into the tax by the line totals: weight of the line × number of its combos -/
+def linesTaxW (ls : List Line) : ℕ := (ls.map (fun l => lineW l * l.taxes.length)).sum
+/-- … and by the document discounts / charges: (own rounding + weight of the sum) × combos -/
+def adjTaxW (W : ℕ) (xs : List DocAdj) : ℕ := (xs.map (fun x => (1 + W) * x.taxes.length)).sum
+/-- weight of the tax: one rounding per rate group (`G` groups) plus the carried errors -/
+def taxW (d : Doc) (G : ℕ) : ℕ :=
+  G + linesTaxW d.lines + adjTaxW (sumW d.lines) d.discounts + adjTaxW (sumW d.lines) d.charges
+
+theorem exactQ_tax (d : Doc) (h : d.includes = none) :
+    (Spec.C01.exactQ d).tax =
+      (d.lines.filterMap (fun l => (Spec.C01.lineTotalQ d.cur d.rates l).map (fun t => rowQ t l.taxes))).sum
+      + (d.discounts.map (fun x => rowQ (-(Spec.C01.docAdjQ (Spec.C01.exactQ d).sum x)) x.taxes)).sum
+      + (d.charges.map (fun x => rowQ (Spec.C01.docAdjQ (Spec.C01.exactQ d).sum x) x.taxes)).sum := by
+  simp only [Spec.C01.exactQ, h, rowQ, List.map_append, List.sum_append, List.map_map, List.filterMap_map,
+    List.map_filterMap, Function.comp_def, Option.map_map]
+
+theorem rows_sum (lines : List Line) (discounts charges : List DocAdj) :
+    ((taxRows lines discounts charges).map (fun rw => rowQ rw.total.toRat rw.taxes)).sum =
+      (lines.filterMap (fun l => l.total.map (fun t => rowQ t.toRat l.taxes))).sum
+      + (discounts.map (fun x => rowQ (neg x.amount).toRat x.taxes)).sum
+      + (charges.map (fun x => rowQ x.amount.toRat x.taxes)).sum := by
+  simp only [taxRows, List.map_append, List.sum_append, List.map_map, List.map_filterMap,
+    Function.comp_def, Option.map_map]
+
+theorem rel_rows (cur : String) (c : ℕ) (rates : List XRate) (ls ls' : List Line)
+    (h : List.Forall₂ (LineRel cur rates c) ls ls') (htx : ∀ l ∈ ls, ∀ cb ∈ l.taxes, ComboOk cb) :
+    |(ls'.filterMap (fun l => l.total.map (fun t => rowQ t.toRat l.taxes))).sum
+      - (ls.filterMap (fun l => (Spec.C01.lineTotalQ cur rates l).map (fun t => rowQ t l.taxes))).sum| ≤
+      (linesTaxW ls : ℚ) * halfUlp (c + 2) := by
+  induction h with
+  | nil => simp [linesTaxW]
+  | @cons l l' ls ls' hl _ ih =>
+    obtain ⟨t, q, ht, htax, _, hq, herr⟩ := hl
+    have ih' := ih (fun x hx => htx x (by simp [hx]))
+    simp only [List.filterMap_cons, ht, hq, Option.map_some, List.sum_cons, linesTaxW, List.map_cons, htax]
+    have hr := rowQ_diff t.toRat q l.taxes (htx l (by simp))
+    set A := (ls'.filterMap (fun l => l.total.map (fun t => rowQ t.toRat l.taxes))).sum
+    set B := (ls.filterMap (fun l => (Spec.C01.lineTotalQ cur rates l).map (fun t => rowQ t l.taxes))).sum
+    have e : rowQ t.toRat l.taxes + A - (rowQ q l.taxes + B) = (rowQ t.toRat l.taxes - rowQ q l.taxes) + (A - B) := by ring
+    rw [e]
+    refine le_trans (abs_add_le _ _) ?_
+    unfold linesTaxW at ih'
+    have hk : (0 : ℚ) ≤ (l.taxes.length : ℚ) := by positivity
+    have := mul_le_mul_of_nonneg_left herr hk
+    push_cast
+    nlinarith
+
+theorem rel_mem (cur : String) (c : ℕ) (rates : List XRate) (ls ls' : List Line)
+    (h : List.Forall₂ (LineRel cur rates c) ls ls') : ∀ l' ∈ ls', ∃ l ∈ ls, LineRel cur rates c l l' := by
+  induction h with
+  | nil => intro l' hl'; simp at hl'
+  | @cons l l' ls ls' hl _ ih =>
+    intro x hx
+    simp only [List.mem_cons] at hx
+    rcases hx with rfl | hx
+    · exact ⟨l, by simp, hl⟩
+    · obtain ⟨y, hy, hr⟩ := ih x hx
+      exact ⟨y, by simp [hy], hr⟩
+
+/-- one document discount / charge against its exact value -/
+theorem docAdj_err (c : ℕ) (sum : Amount) (S W : ℚ) (x : DocAdj) (hx : PctOnly x) (hs : c + 2 ≤ sum.exp)
+    (hS : |sum.toRat - S| ≤ W * halfUlp (c + 2)) :
+    |(docAdj exactOps .precise c sum x).amount.toRat - Spec.C01.docAdjQ S x| ≤ (1 + W) * halfUlp (c + 2) := by
+  rw [docAdjQ_pct S x hx]
+  have h1 := (docAdj_pct c sum x hx (by omega)).2
+  have hh := halfUlp_mono _ _ hs
+  obtain ⟨p, hp, _, _, hle⟩ := hx
+  have hq : |pctQ x| ≤ 1 := by simpa [pctQ, hp] using hle
+  have e : (docAdj exactOps .precise c sum x).amount.toRat - S * pctQ x =
+      ((docAdj exactOps .precise c sum x).amount.toRat - sum.toRat * pctQ x) + (sum.toRat - S) * pctQ x := by ring
+  rw [e]
+  refine le_trans (abs_add_le _ _) ?_
+  have h2 : |(sum.toRat - S) * pctQ x| ≤ |sum.toRat - S| := by
+    rw [abs_mul]
+    calc |sum.toRat - S| * |pctQ x| ≤ |sum.toRat - S| * 1 := mul_le_mul_of_nonneg_left hq (abs_nonneg _)
+      _ = |sum.toRat - S| := mul_one _
+  linarith
+
+theorem adjRows_err (c : ℕ) (sum : Amount) (S : ℚ) (W : ℕ) (xs : List DocAdj) (sgn : Bool)
+    (hx : ∀ x ∈ xs, PctOnly x) (htx : ∀ x ∈ xs, ∀ cb ∈ x.taxes, ComboOk cb) (hs : c + 2 ≤ sum.exp)
+    (hS : |sum.toRat - S| ≤ (W : ℚ) * halfUlp (c + 2)) :
+    |((xs.map (docAdj exactOps .precise c sum)).map
+        (fun x => rowQ (if sgn then (neg x.amount).toRat else x.amount.toRat) x.taxes)).sum
+      - (xs.map (fun x => rowQ (if sgn then -(Spec.C01.docAdjQ S x) else Spec.C01.docAdjQ S x) x.taxes)).sum| ≤
+      (adjTaxW W xs : ℚ) * halfUlp (c + 2) := by
+  rw [List.map_map]
+  have hB : ∀ x ∈ xs, |((fun x => rowQ (if sgn then (neg x.amount).toRat else x.amount.toRat) x.taxes) ∘
+        docAdj exactOps .precise c sum) x
+      - rowQ (if sgn then -(Spec.C01.docAdjQ S x) else Spec.C01.docAdjQ S x) x.taxes| ≤
+      (((1 + W) * x.taxes.length : ℕ) : ℚ) * halfUlp (c + 2) := by
+    intro x hxm
+    simp only [Function.comp, docAdj_taxes]
+    have h1 := docAdj_err c sum S W x (hx x hxm) hs hS
+    have hk : (0 : ℚ) ≤ (x.taxes.length : ℚ) := by positivity
+    cases sgn with
+    | true =>
+      simp only [if_true, neg_toRat]
+      have hr := rowQ_diff (-(docAdj exactOps .precise c sum x).amount.toRat) (-(Spec.C01.docAdjQ S x)) x.taxes (htx x hxm)
+      have e : -(docAdj exactOps .precise c sum x).amount.toRat - -(Spec.C01.docAdjQ S x) =
+          -((docAdj exactOps .precise c sum x).amount.toRat - Spec.C01.docAdjQ S x) := by ring
+      rw [e, abs_neg] at hr
+      have := mul_le_mul_of_nonneg_left h1 hk
+      push_cast
+      nlinarith
+    | false =>
+      simp only [Bool.false_eq_true, if_false]
+      have hr := rowQ_diff (docAdj exactOps .precise c sum x).amount.toRat (Spec.C01.docAdjQ S x) x.taxes (htx x hxm)
+      have := mul_le_mul_of_nonneg_left h1 hk
+      push_cast
+      nlinarith
+  have := list_sum_diff_le' xs _ _ _ hB
+  refine le_trans this (le_of_eq ?_)
+  unfold adjTaxW
+  exact sum_map_mul_const xs (fun x => (1 + W) * x.taxes.length) _
+
+theorem doc_tax_w (d : Doc) (p : Pre) (tx : TaxTotal) (hd : DocT d) (hpre : pre exactOps d = .ok p)
+    (htx : taxTotal exactOps d.rule d.c d.includes p.rows = .ok tx) :
+    tx.precise.exp ≤ p.sum.exp ∧
+    |tx.precise.toRat - (Spec.C01.exactQ d).tax| ≤ (taxW d (groupsOf tx.cats) : ℚ) * halfUlp (d.c + 2) := by
+  obtain ⟨hrel, hsum, hsexp, hS, hdis, hch, hrows, _, _⟩ := pre_spec d p hd.base hpre
+  rw [hd.base.rule, hd.inc, hrows] at htx
+  have hcs : d.c ≤ p.sum.exp := by omega
+  have hrowsOk : ∀ rw ∈ taxRows p.lines p.discounts p.charges, RowOk d.c p.sum.exp rw := by
+    intro rw hrw
+    simp only [taxRows, List.mem_append, List.mem_filterMap, List.mem_map] at hrw
+    rcases hrw with (⟨l', hl', hrw⟩ | ⟨x, hx, rfl⟩) | ⟨x, hx, rfl⟩
+    · obtain ⟨l, hl, t, q, ht, htax, hte, _, _⟩ := rel_mem d.cur d.c d.rates _ _ hrel l' hl'
+      rw [ht] at hrw
+      simp only [Option.map_some, Option.some.injEq] at hrw
+      subst hrw
+      refine ⟨by simp only [htax]; exact hd.lineTaxes l hl, hte, ?_⟩
+      rw [hsum]
+      unfold lineSum
+      exact foldl_accum_exp_ge_mem _ ⟨0, d.c⟩ t (List.mem_filterMap.mpr ⟨l', hl', ht⟩)
+    · rw [hdis] at hx
+      simp only [List.mem_map] at hx
+      obtain ⟨x0, hx0, rfl⟩ := hx
+      have he := (docAdj_pct d.c p.sum x0 (hd.base.discounts x0 hx0) hcs).1
+      refine ⟨by simp only [docAdj_taxes]; exact hd.discTaxes x0 hx0, ?_, ?_⟩ <;> simp only [neg_exp, he] <;> omega
+    · rw [hch] at hx
+      simp only [List.mem_map] at hx
+      obtain ⟨x0, hx0, rfl⟩ := hx
+      have he := (docAdj_pct d.c p.sum x0 (hd.base.charges x0 hx0) hcs).1
+      refine ⟨by simp only [docAdj_taxes]; exact hd.chTaxes x0 hx0, ?_, ?_⟩ <;> simp only [he] <;> omega
+  obtain ⟨t1, t2⟩ := taxTotal_w d.c p.sum.exp _ tx hrowsOk hcs htx
+  refine ⟨t1, ?_⟩
+  rw [rows_sum] at t2
+  rw [exactQ_tax d hd.inc]
+  have l1 := rel_rows d.cur d.c d.rates _ _ hrel hd.lineTaxes
+  have l2 := adjRows_err d.c p.sum (Spec.C01.exactQ d).sum (sumW d.lines) d.discounts true
+    hd.base.discounts hd.discTaxes hsexp hS
+  have l3 := adjRows_err d.c p.sum (Spec.C01.exactQ d).sum (sumW d.lines) d.charges false
+    hd.base.charges hd.chTaxes hsexp hS
+  rw [← hdis] at l2
+  rw [← hch] at l3
+  simp only [if_true, Bool.false_eq_true, if_false] at l2 l3
+  set A := (p.lines.filterMap (fun l => l.total.map (fun t => rowQ t.toRat l.taxes))).sum
+  set A' := (d.lines.filterMap (fun l => (Spec.C01.lineTotalQ d.cur d.rates l).map (fun t => rowQ t l.taxes))).sum
+  set B := (p.discounts.map (fun x => rowQ (neg x.amount).toRat x.taxes)).sum
+  set B' := (d.discounts.map (fun x => rowQ (-(Spec.C01.docAdjQ (Spec.C01.exactQ d).sum x)) x.taxes)).sum
+  set C := (p.charges.map (fun x => rowQ x.amount.toRat x.taxes)).sum
+  set C' := (d.charges.map (fun x => rowQ (Spec.C01.docAdjQ (Spec.C01.exactQ d).sum x) x.taxes)).sum
+  have e : tx.precise.toRat - (A' + B' + C') = (tx.precise.toRat - (A + B + C)) + (A - A') + (B - B') + (C - C') := by ring
+  rw [e]
+  have a1 := abs_add_le ((tx.precise.toRat - (A + B + C)) + (A - A') + (B - B')) (C - C')
+  have a2 := abs_add_le ((tx.precise.toRat - (A + B + C)) + (A - A')) (B - B')
+  have a3 := abs_add_le (tx.precise.toRat - (A + B + C)) (A - A')
+  unfold taxW
+  push_cast
+  linarith
+
+/-! ## payable, advances, due -/
+
+/-- an advance of the covered class: a percentage of the total with tax of at most 100 %, or a
+fixed amount with at most currency + 2 decimals -/
+def AdvOk (c : ℕ) (a : Advance) : Prop :=
+  (∃ p, a.percent = some p ∧ |p.amount.toRat| ≤ 1) ∨ (a.percent = none ∧ a.amount.exp ≤ c + 2)
+
+/-- the exact amount of one advance, as `Spec.C01.exactQ` has it -/
+def advQ (T : ℚ) (a : Advance) : ℚ :=
+  match a.percent with
+  | some p => T * Spec.C01.pq p
+  | none => a.amount.toRat
+
+theorem calcAdvance_ok (c : ℕ) (twt : Amount) (a : Advance) (ha : AdvOk c a) (htw : c + 2 ≤ twt.exp) (T : ℚ) :
+    (calcAdvance exactOps c twt a).amount.exp ≤ twt.exp ∧
+    |(calcAdvance exactOps c twt a).amount.toRat - advQ T a| ≤ |twt.toRat - T| + halfUlp twt.exp := by
+  rcases ha with ⟨p, hp, hle⟩ | ⟨hp, he⟩
+  · have hval : (calcAdvance exactOps c twt a).amount = twt.mulX p.amount := by
+      simp only [calcAdvance, hp, pctOf, exact_mul]
+      exact up_self _ c (by rw [mulX_exp]; omega)
+    rw [hval]
+    refine ⟨le_of_eq rfl, ?_⟩
+    simp only [advQ, hp, Spec.C01.pq]
+    have h1 := mulX_err twt p.amount
+    have e : (twt.mulX p.amount).toRat - T * p.amount.toRat =
+        ((twt.mulX p.amount).toRat - twt.toRat * p.amount.toRat) + (twt.toRat - T) * p.amount.toRat := by ring
+    rw [e]
+    refine le_trans (abs_add_le _ _) ?_
+    have h2 : |(twt.toRat - T) * p.amount.toRat| ≤ |twt.toRat - T| := by
+      rw [abs_mul]
+      calc |twt.toRat - T| * |p.amount.toRat| ≤ |twt.toRat - T| * 1 :=
+            mul_le_mul_of_nonneg_left hle (abs_nonneg _)
+        _ = |twt.toRat - T| := mul_one _
+    linarith
+  · have hval : (calcAdvance exactOps c twt a).amount = up a.amount c := by
+      simp only [calcAdvance, hp]
+    rw [hval, up_toRat, up_exp]
+    refine ⟨by omega, ?_⟩
+    simp only [advQ, hp, sub_self, abs_zero]
+    have := halfUlp_nonneg twt.exp
+    have := abs_nonneg (twt.toRat - T)
+    linarith
+
+theorem advanceTotal_w (c E : ℕ) (advs : List Advance) (hc : c ≤ E) (h : ∀ a ∈ advs, a.amount.exp ≤ E) :
+    (∀ s, advanceTotal exactOps c advs = some s → s.exp ≤ E) ∧
+    optQ (advanceTotal exactOps c advs) = (advs.map (·.amount.toRat)).sum := by
+  constructor
+  · intro s hs
+    unfold advanceTotal at hs
+    split at hs
+    · simp at hs
+    · injection hs with hs
+      rw [← hs]
+      apply foldl_accum_exp_le _ _ _ hc
+      intro y hy
+      simp only [List.mem_map] at hy
+      obtain ⟨a, ha, rfl⟩ := hy
+      exact h a ha
+  · unfold optQ advanceTotal
+    split
+    · rename_i he
+      have : advs = [] := by simpa using he
+      simp [this]
+    · simp only [Option.map_some, Option.getD_some]
+      rw [foldl_accum_toRat]
+      simp [Amount.toRat, List.map_map, Function.comp_def]
+
+theorem exactQ_advances (d : Doc) :
+    (Spec.C01.exactQ d).advances =
+      if d.hasPayment then (d.advances.map (advQ (Spec.C01.exactQ d).totalWithTax)).sum else 0 := rfl
+
+theorem exactQ_twt (d : Doc) :
+    (Spec.C01.exactQ d).totalWithTax = (Spec.C01.exactQ d).total + (Spec.C01.exactQ d).tax := rfl
+
+theorem exactQ_payable (d : Doc) :
+    (Spec.C01.exactQ d).payable = (Spec.C01.exactQ d).totalWithTax +
+      (match d.rounding with | some x => x.toRat | none => 0) := rfl
+
+theorem exactQ_due (d : Doc) :
+    (Spec.C01.exactQ d).due = (Spec.C01.exactQ d).payable - (Spec.C01.exactQ d).advances := rfl
+
+theorem rawTotals_fields (d : Doc) (p : Pre) (tx : TaxTotal) (hinc : d.includes = none) :
+    (rawTotals exactOps d p tx).sum = p.sum ∧ (rawTotals exactOps d p tx).discount = p.dsum ∧
+    (rawTotals exactOps d p tx).charge = p.csum ∧ (rawTotals exactOps d p tx).taxIncluded = none ∧
+    (rawTotals exactOps d p tx).total = p.total2 ∧
+    (rawTotals exactOps d p tx).tax = tx.precise ∧
+    (rawTotals exactOps d p tx).totalWithTax = add exactOps p.total2 tx.precise ∧
+    (rawTotals exactOps d p tx).payable =
+      (match d.rounding with
+       | some x => add exactOps (add exactOps p.total2 tx.precise) x
+       | none => add exactOps p.total2 tx.precise) ∧
+    (rawTotals exactOps d p tx).advances =
+      (if d.hasPayment then
+        advanceTotal exactOps d.c (d.advances.map (calcAdvance exactOps d.c (add exactOps p.total2 tx.precise)))
+       else none) ∧
+    (rawTotals exactOps d p tx).due =
+      (rawTotals exactOps d p tx).advances.map (fun x => sub exactOps (rawTotals exactOps d p tx).payable x) := by
+  simp [rawTotals, taxIncluded, hinc]
+  cases d.rounding <;> rfl
+
+/-! ## all working totals of a document of the full class -/
+
+/-- the document class of `calc_eq_spec`: `DocT`, an externally supplied `totals.rounding` not finer
+than the working precision, advances of the class `AdvOk` -/
+structure DocC (d : Doc) : Prop where
+  tax : DocT d
+  rounding : ∀ x, d.rounding = some x → x.exp ≤ d.c + 2
+  advances : ∀ a ∈ d.advances, AdvOk d.c a
+
+/-- weight of the discount / charge total: per row its own rounding plus the weight of the sum -/
+def adjW (W k : ℕ) : ℕ := k * (1 + W)
+/-- weight of total-with-tax and payable -/
+def twtW (d : Doc) (G : ℕ) : ℕ := totalW d + taxW d G
+/-- weight of the advances total: per advance one rounding plus the weight of total-with-tax -/
+def advW (d : Doc) (G : ℕ) : ℕ := d.advances.length * (1 + twtW d G)
+/-- weight of the amount due -/
+def dueW (d : Doc) (G : ℕ) : ℕ := twtW d G + advW d G
+
+theorem adjTotal_err (sumR S P D kd W h : ℚ) (hS : |sumR - S| ≤ W * h) (hD : |D - sumR * P| ≤ kd * h)
+    (hP : |P| ≤ kd) (hh : 0 ≤ h) (hW : 0 ≤ W) : |D - S * P| ≤ kd * (1 + W) * h := by
+  have e : D - S * P = (D - sumR * P) + (sumR - S) * P := by ring
+  rw [e]
+  refine le_trans (abs_add_le _ _) ?_
+  have : |(sumR - S) * P| ≤ (W * h) * kd := by
+    rw [abs_mul]
+    exact mul_le_mul hS hP (abs_nonneg _) (by positivity)
+  nlinarith
+
+theorem working_tax (d : Doc) (p : Pre) (tx : TaxTotal) (hd : DocT d) (hpre : pre exactOps d = .ok p)
+    (htx : taxTotal exactOps d.rule d.c d.includes p.rows = .ok tx) :
+    (d.c + 2 ≤ p.sum.exp ∧ p.total2.exp = p.sum.exp ∧ (add exactOps p.total2 tx.precise).exp = p.sum.exp) ∧
+    |(rawTotals exactOps d p tx).sum.toRat - (Spec.C01.exactQ d).sum| ≤
+      (sumW d.lines : ℚ) * halfUlp (d.c + 2) ∧
+    |optQ (rawTotals exactOps d p tx).discount - (Spec.C01.exactQ d).discount| ≤
+      (adjW (sumW d.lines) d.discounts.length : ℚ) * halfUlp (d.c + 2) ∧
+    |optQ (rawTotals exactOps d p tx).charge - (Spec.C01.exactQ d).charge| ≤
+      (adjW (sumW d.lines) d.charges.length : ℚ) * halfUlp (d.c + 2) ∧
+    |(rawTotals exactOps d p tx).total.toRat - (Spec.C01.exactQ d).total| ≤
+      (totalW d : ℚ) * halfUlp (d.c + 2) ∧
+    |(rawTotals exactOps d p tx).tax.toRat - (Spec.C01.exactQ d).tax| ≤
+      (taxW d (groupsOf tx.cats) : ℚ) * halfUlp (d.c + 2) ∧
+    |(rawTotals exactOps d p tx).totalWithTax.toRat - (Spec.C01.exactQ d).totalWithTax| ≤
+      (twtW d (groupsOf tx.cats) : ℚ) * halfUlp (d.c + 2) := by
+  have hA := hd.base
+  have hinc := hd.inc
+  obtain ⟨_, _, _, _, _, _, hds, hcs, _, _⟩ := pre_ok d p hpre
+  obtain ⟨hrel, hsum, hsexp, hS, hdis, hch, hrows, te, hb⟩ := pre_spec d p hA hpre
+  obtain ⟨x1, x2⟩ := doc_tax_w d p tx hd hpre htx
+  obtain ⟨f1, f2, f3, _, f5, f6, f7, f8, f9, f10⟩ := rawTotals_fields d p tx hinc
+  have h0 := halfUlp_nonneg (d.c + 2)
+  have hcs' : d.c ≤ p.sum.exp := by omega
+  have hh : halfUlp p.sum.exp ≤ halfUlp (d.c + 2) := halfUlp_mono _ _ hsexp
+  -- discount and charge totals
+  have hkd : (0 : ℚ) ≤ (d.discounts.length : ℚ) := by positivity
+  have hkc : (0 : ℚ) ≤ (d.charges.length : ℚ) := by positivity
+  have hdq := (adjSum_pct d.c p.sum d.discounts hA.discounts hcs').2
+  have hcq := (adjSum_pct d.c p.sum d.charges hA.charges hcs').2
+  rw [← hdis, ← hds] at hdq
+  rw [← hch, ← hcs] at hcq
+  have hD : |optQ p.dsum - (Spec.C01.exactQ d).discount| ≤ (adjW (sumW d.lines) d.discounts.length : ℚ) * halfUlp (d.c + 2) := by
+    rw [exactQ_discount, docAdjQ_sum_pct _ _ hA.discounts]
+    have := adjTotal_err p.sum.toRat (Spec.C01.exactQ d).sum (d.discounts.map pctQ).sum (optQ p.dsum)
+      d.discounts.length (sumW d.lines) (halfUlp (d.c + 2)) hS
+      (le_trans hdq (mul_le_mul_of_nonneg_left hh hkd)) (pctQ_sum_abs _ hA.discounts) h0 (by positivity)
+    refine le_trans this (le_of_eq ?_)
+    unfold adjW; push_cast; ring
+  have hC : |optQ p.csum - (Spec.C01.exactQ d).charge| ≤ (adjW (sumW d.lines) d.charges.length : ℚ) * halfUlp (d.c + 2) := by
+    rw [exactQ_charge, docAdjQ_sum_pct _ _ hA.charges]
+    have := adjTotal_err p.sum.toRat (Spec.C01.exactQ d).sum (d.charges.map pctQ).sum (optQ p.csum)
+      d.charges.length (sumW d.lines) (halfUlp (d.c + 2)) hS
+      (le_trans hcq (mul_le_mul_of_nonneg_left hh hkc)) (pctQ_sum_abs _ hA.charges) h0 (by positivity)
+    refine le_trans this (le_of_eq ?_)
+    unfold adjW; push_cast; ring
+  -- total
+  have hT : |p.total2.toRat - (Spec.C01.exactQ d).total| ≤ (totalW d : ℚ) * halfUlp (d.c + 2) := by
+    rw [exactQ_total, exactQ_inc_none d hinc, sub_zero]; exact hb
+  -- total with tax
+  set twt := add exactOps p.total2 tx.precise with htwt
+  have htwe : twt.exp = p.sum.exp := by rw [htwt, add_exp]; exact te
+  have htwq : twt.toRat = p.total2.toRat + tx.precise.toRat := add_toRat _ _ (by rw [te]; exact x1)
+  have hTW : |twt.toRat - (Spec.C01.exactQ d).totalWithTax| ≤ (twtW d (groupsOf tx.cats) : ℚ) * halfUlp (d.c + 2) := by
+    rw [htwq, exactQ_twt]
+    have e : p.total2.toRat + tx.precise.toRat - ((Spec.C01.exactQ d).total + (Spec.C01.exactQ d).tax) =
+        (p.total2.toRat - (Spec.C01.exactQ d).total) + (tx.precise.toRat - (Spec.C01.exactQ d).tax) := by ring
+    rw [e]
+    refine le_trans (abs_add_le _ _) ?_
+    unfold twtW; push_cast; linarith
+  exact ⟨⟨hsexp, te, htwe⟩, by rw [f1]; exact hS, by rw [f2]; exact hD, by rw [f3]; exact hC, by rw [f5]; exact hT,
+    by rw [f6]; exact x2, by rw [f7]; exact hTW⟩
+
+theorem working_spec (d : Doc) (p : Pre) (tx : TaxTotal) (hd : DocC d) (hpre : pre exactOps d = .ok p)
+    (htx : taxTotal exactOps d.rule d.c d.includes p.rows = .ok tx) :
+    |(rawTotals exactOps d p tx).sum.toRat - (Spec.C01.exactQ d).sum| ≤
+      (sumW d.lines : ℚ) * halfUlp (d.c + 2) ∧
+    |optQ (rawTotals exactOps d p tx).discount - (Spec.C01.exactQ d).discount| ≤
+      (adjW (sumW d.lines) d.discounts.length : ℚ) * halfUlp (d.c + 2) ∧
+    |optQ (rawTotals exactOps d p tx).charge - (Spec.C01.exactQ d).charge| ≤
+      (adjW (sumW d.lines) d.charges.length : ℚ) * halfUlp (d.c + 2) ∧
+    |(rawTotals exactOps d p tx).total.toRat - (Spec.C01.exactQ d).total| ≤
+      (totalW d : ℚ) * halfUlp (d.c + 2) ∧
+    |(rawTotals exactOps d p tx).tax.toRat - (Spec.C01.exactQ d).tax| ≤
+      (taxW d (groupsOf tx.cats) : ℚ) * halfUlp (d.c + 2) ∧
+    |(rawTotals exactOps d p tx).totalWithTax.toRat - (Spec.C01.exactQ d).totalWithTax| ≤
+      (twtW d (groupsOf tx.cats) : ℚ) * halfUlp (d.c + 2) ∧
+    |(rawTotals exactOps d p tx).payable.toRat - (Spec.C01.exactQ d).payable| ≤
+      (twtW d (groupsOf tx.cats) : ℚ) * halfUlp (d.c + 2) ∧
+    |optQ (rawTotals exactOps d p tx).advances - (Spec.C01.exactQ d).advances| ≤
+      (advW d (groupsOf tx.cats) : ℚ) * halfUlp (d.c + 2) ∧
+    (∀ y, (rawTotals exactOps d p tx).due = some y →
+      |y.toRat - (Spec.C01.exactQ d).due| ≤ (dueW d (groupsOf tx.cats) : ℚ) * halfUlp (d.c + 2)) := by
+  obtain ⟨⟨hsexp, te, htwe'⟩, w1, w2, w3, w4, w5, hTW'⟩ := working_tax d p tx hd.tax hpre htx
+  have hinc := hd.tax.inc
+  obtain ⟨f1, f2, f3, _, f5, f6, f7, f8, f9, f10⟩ := rawTotals_fields d p tx hinc
+  have h0 := halfUlp_nonneg (d.c + 2)
+  have hh : halfUlp p.sum.exp ≤ halfUlp (d.c + 2) := halfUlp_mono _ _ hsexp
+  set twt := add exactOps p.total2 tx.precise with htwt
+  have htwe : twt.exp = p.sum.exp := htwe'
+  have hTW : |twt.toRat - (Spec.C01.exactQ d).totalWithTax| ≤ (twtW d (groupsOf tx.cats) : ℚ) * halfUlp (d.c + 2) := by
+    rw [← f7]; exact hTW'
+  -- payable
+  have hPe : (rawTotals exactOps d p tx).payable.exp = p.sum.exp ∧
+      |(rawTotals exactOps d p tx).payable.toRat - (Spec.C01.exactQ d).payable| ≤
+        (twtW d (groupsOf tx.cats) : ℚ) * halfUlp (d.c + 2) := by
+    rw [f8, exactQ_payable]
+    cases hr : d.rounding with
+    | none => simp only [add_zero]; exact ⟨htwe, hTW⟩
+    | some x =>
+      simp only [add_exp]
+      refine ⟨te, ?_⟩
+      rw [add_toRat _ _ (by rw [htwe]; have := hd.rounding x hr; omega)]
+      have e : twt.toRat + x.toRat - ((Spec.C01.exactQ d).totalWithTax + x.toRat) =
+          twt.toRat - (Spec.C01.exactQ d).totalWithTax := by ring
+      rw [e]; exact hTW
+  -- advances
+  have hAe : (∀ s, (rawTotals exactOps d p tx).advances = some s → s.exp ≤ p.sum.exp) ∧
+      |optQ (rawTotals exactOps d p tx).advances - (Spec.C01.exactQ d).advances| ≤
+        (advW d (groupsOf tx.cats) : ℚ) * halfUlp (d.c + 2) := by
+    rw [f9, exactQ_advances]
+    cases hp : d.hasPayment with
+    | false =>
+      simp only [Bool.false_eq_true, if_false]
+      refine ⟨fun s hs => (by cases hs), ?_⟩
+      simp only [optQ, Option.map_none, Option.getD_none, sub_self, abs_zero]
+      positivity
+    | true =>
+      simp only [if_true]
+      have hok : ∀ a ∈ d.advances.map (calcAdvance exactOps d.c twt), a.amount.exp ≤ twt.exp := by
+        intro a ha
+        simp only [List.mem_map] at ha
+        obtain ⟨a0, ha0, rfl⟩ := ha
+        exact (calcAdvance_ok d.c twt a0 (hd.advances a0 ha0) (by omega) 0).1
+      obtain ⟨a1, a2⟩ := advanceTotal_w d.c twt.exp _ (by omega) hok
+      refine ⟨fun s hs => (by rw [← htwe]; exact a1 s hs), ?_⟩
+      rw [a2, List.map_map]
+      have hB : ∀ a ∈ d.advances, |((fun a => a.amount.toRat) ∘ calcAdvance exactOps d.c twt) a
+          - advQ (Spec.C01.exactQ d).totalWithTax a| ≤ (1 + (twtW d (groupsOf tx.cats) : ℚ)) * halfUlp (d.c + 2) := by
+        intro a ha
+        have := (calcAdvance_ok d.c twt a (hd.advances a ha) (by omega) (Spec.C01.exactQ d).totalWithTax).2
+        have hh2 : halfUlp twt.exp ≤ halfUlp (d.c + 2) := by rw [htwe]; exact hh
+        simp only [Function.comp]
+        linarith
+      refine le_trans (list_sum_diff_le d.advances _ _ _ hB) (le_of_eq ?_)
+      unfold advW; push_cast; ring
+  refine ⟨w1, w2, w3, w4, w5, hTW', hPe.2, hAe.2, ?_⟩
+  intro y hy
+  rw [f10] at hy
+  cases ha : (rawTotals exactOps d p tx).advances with
+  | none => rw [ha] at hy; cases hy
+  | some s =>
+    rw [ha] at hy
+    simp only [Option.map_some, Option.some.injEq] at hy
+    subst hy
+    rw [sub_toRat _ _ (by rw [hPe.1]; exact hAe.1 s ha), exactQ_due]
+    have h2 := hAe.2
+    rw [ha] at h2
+    simp only [optQ, Option.map_some, Option.getD_some] at h2
+    have e : (rawTotals exactOps d p tx).payable.toRat - s.toRat -
+        ((Spec.C01.exactQ d).payable - (Spec.C01.exactQ d).advances) =
+        ((rawTotals exactOps d p tx).payable.toRat - (Spec.C01.exactQ d).payable) -
+        (s.toRat - (Spec.C01.exactQ d).advances) := by ring
+    rw [e]
+    refine le_trans (abs_sub _ _) ?_
+    have := hPe.2
+    unfold dueW; push_cast; linarith
+
+/-- number of rate groups of the tax summary shown with the totals -/
+def groupsT (t : Totals) : ℕ :=
+  match t.taxes with
+  | some tx => groupsOf tx.cats
+  | none => 0
+
+theorem groupsT_round (d : Doc) (p : Pre) (tx : TaxTotal) :
+    groupsT (roundTotals exactOps d.c (rawTotals exactOps d p tx)) = groupsOf tx.cats := by
+  unfold groupsT
+  simp only [roundTotals, rawTotals]
+  split
+  · rename_i tx' h
+    split at h
+    · cases h
+    · injection h with h; rw [h]
+  · rename_i h
+    split at h
+    · rename_i he
+      have : tx.cats = [] := by simpa using he
+      rw [this]; rfl
+    · cases h
+
+/-- the presented figure for a working amount -/
+theorem presents_rescale (c : ℕ) (a : Amount) : Spec.C01.presents c (a.rescaleX c) a.toRat :=
+  ⟨rescaleX_exp a c, rescaleX_value a c⟩
+
 end Calc
 end GoblVerif
